@@ -62,6 +62,10 @@ FIXED = [
   "a logcat threadtime line whose 18-byte time stamp contains a non-ASCII digit (the regex \\d is Unicode aware, e.g. '01-1\u06f3 10:11:12.11  100  200 I MyTag   : x') was sliced at fixed byte offsets inside a character in parse_threadtime_str/parse_mmdd_str", "replays/examples/C03-logcat-unicode-digit.json"),
  ("KF-C03-15", "C03", "C03-asc-64k-data", "fix: asc frame with a data length close to 64k",
   "a CAN-ASC frame line announcing and carrying 65 500+ data bytes overflowed the u16 length of the generated message ('len_wo_payload + payload.len() as u16')", "replays/examples/C03-asc-64k-data.json"),
+ ("KF-C09-1", "C09", "C09-sequential-chain-recursion", "fix: SequentialMultiIterator doesn't recurse",
+  "SequentialMultiIterator::next called itself once per empty source: chaining sources with a run of 5 000+ (debug) / 50 000+ empty sources in a row overflowed the stack (process abort) instead of yielding the concatenation", "replays/examples/C09-many-empty-sources.json"),
+ ("KF-C09-2", "C09", "C09-index-overflow-at-u32-max", "fix: multi iterators don't overflow after a msg with the max index",
+  "with a start index such that the last message is numbered u32::MAX (e.g. one message, start index u32::MAX) both multi iterators panicked with 'attempt to add with overflow' at 'self.index += 1' before returning that message", "replays/examples/C09-last-index-u32-max.json"),
  ("KF-C18-1", "C18", "C18-payload_from_args-empty-string-or-raw", "fix: payload_from_args writes the length",
   "utils::payload_from_args wrote no u16 length prefix for an empty string/raw argument, so the encoded payload did not decode to the same arguments (a single empty raw value: 4 bytes written, 0 arguments decoded)",
   "replays/examples/C18-payload_from_args-empty-raw.json"),
